@@ -145,9 +145,14 @@ CHECKS = {
     technique="contract-based deductive verification of frame conditions on the derivation functions: %s + bounded contract checking of frontend routes + bounded-exhaustive check of replace against a token-based spec" % FR_,
     engine="pyvc", rtc=True),
  "C16": dict(
-    level=("exploration", "Bounded: population circuits unit by unit against the reference semantics of the explicit node-and-edge network (signed, "
-            "sparse, non-square matrices, scalar weights, heterogeneous params and initial states, delays and gamma kernels).", "5 C16"),
-    note="Trusted: population_to_explicit + spec_fixed_step.", technique="bounded contract checking of Population/Connectivity against the explicit network's spec", engine="rtc", rtc=True),
+    level=("other", "Deductive (small core): a Connectivity object stores its source, target, delays and spread exactly as given (constructor contract, for every "
+            "value incl. spread >= delays and None), and the cascade branch of _add_matrix_delay turns (delay, spread) into n = max(1, round((d/s)^2)) stages of rate "
+            "n/d - the numbers scalar edges get (contract shared with C11). Bounded: population circuits unit by unit against the reference semantics of the explicit "
+            "node-and-edge network (signed, sparse, non-square matrices, scalar weights, heterogeneous params and initial states, delays and gamma kernels, coupling "
+            "edge templates incl. chained operators). PopulationTemplate.apply, _apply_populations_and_connections and _generate_edge_equation are bounded only.", "5 C16"),
+    note="Trusted: pyvc encoding; population_to_explicit + spec_fixed_step.",
+    technique="contract-based deductive verification of the Connectivity constructor and the matrix-delay kernel arithmetic (pyvc, z3) + bounded contract checking of Population/Connectivity against the explicit network's spec",
+    engine="pyvc", rtc=True),
  "C17": dict(
     level=("other", "Deductive (small frame core): adapt_circuit works on a deep copy - it never modifies, and never returns an alias of, the circuit it is given or "
             "the template object the YAML loader keeps ('leaves the circuits uncoupled from one another'); CircuitTemplate.update_var writes only into deep copies of node "
